@@ -1,4 +1,5 @@
 import QuillModel.Backend.CtxDrain
+import QuillModel.Backend.ThreadProofs
 /-!
 # C20 — exited threads' queues are drained, then reclaimed
 
@@ -91,13 +92,14 @@ theorem C20_live_contexts_registered (s0 : BSt) (h0 : CtxFresh s0) (ops : List O
       simp only [Option.map_some, Option.some.injEq, TC.mk.injEq] at h1
       exact h1.2
 
-/-- **Retained contexts = live threads that logged.** Take any reachable state and any poll (with any operations
-    injected at its hook sites) that reads nothing, takes the idle branch and finds every queue and transit
-    buffer empty, at a moment when fewer than `2 ^ invalidBits` contexts are registered. After that poll every
-    registered context belongs to a live thread, the registry is a permutation of the contexts of the live
-    threads that have logged, and their numbers agree — every context of an exited thread was reclaimed
+/-- **After a drain, what is retained belongs to live threads — or still owes a report.** Take any reachable state
+    and any poll (with any operations injected at its hook sites) that reads nothing, takes the idle branch and
+    finds every queue and transit buffer empty, at a moment when fewer than `2 ^ invalidBits` contexts are
+    registered. After that poll every registered context belongs to a live thread, or its failure counter has
+    not been reported yet (`Unreported`: the repaired clean-up keeps such a context until the next
+    `_check_failure_counter`, finding F24) — every other context of an exited thread was reclaimed
     (it was empty: its statements had been delivered before, C03). -/
-theorem C20_idle_poll_retains_live (s0 : BSt) (h0 : CtxFresh s0) (ops : List Op)
+theorem C20_idle_poll_reclaims (s0 : BSt) (h0 : CtxFresh s0) (ops : List Op)
     (table : List (Nat × Nat × List FOp)) :
     let s := runOps s0 ops
     let sp : BSt := { s with siteCnt := [] }
@@ -105,8 +107,7 @@ theorem C20_idle_poll_retains_live (s0 : BSt) (h0 : CtxFresh s0) (ops : List Op)
     s.backendGone = false → (populate (runInj table) sp).2 = 0 →
     (allEmpty (idleState (runInj table) sp)).2 = true →
     (idleState (runInj table) sp).registry.length < 2 ^ (idleState (runInj table) sp).cfg.invalidBits →
-    (∀ i ∈ s'.registry, (s'.th i).valid = true) ∧ s'.registry.Perm (liveContexts s') ∧
-    s'.registry.length = (s'.actors.filter (fun x => x.alive && x.ctx.isSome)).length := by
+    ∀ i ∈ s'.registry, (s'.th i).valid = true ∨ Unreported s' i := by
   intro s sp s' hg hp he hnw
   have hs : CInv s := CInv_runOps s0 h0.inv ops
   have hsp : CInv sp := hs
@@ -118,18 +119,49 @@ theorem C20_idle_poll_retains_live (s0 : BSt) (h0 : CtxFresh s0) (ops : List Op)
     rw [hap, hg]
     exact poll_idle_eq (runInj table) sp hp he
   have hval := drained_all_valid _ hid hnw he
-  obtain ⟨f1, f2, f3⟩ := cleanupLoggers_frame (cleanupContexts (allEmpty (idleState (runInj table) sp)).1)
-  have hfin : CInv s' := by
-    rw [hs'eq]
-    exact CInv_closed.cleanupLoggers _ (CInv_closed.cleanupContexts _ (CInv_closed.allEmpty _ hid))
+  obtain ⟨f1, f2, _⟩ := cleanupLoggers_frame (cleanupContexts (allEmpty (idleState (runInj table) sp)).1)
+  obtain ⟨g1, g2⟩ := cleanupLoggers_fail (cleanupContexts (allEmpty (idleState (runInj table) sp)).1)
+  intro i hi
+  rw [hs'eq] at hi ⊢
+  rw [f1] at hi
+  rcases hval i hi with hv | hu
+  · left
+    rw [← valid_core] at hv ⊢
+    unfold Core.valid at hv ⊢
+    rw [f2]; exact hv
+  · right
+    unfold Unreported at hu ⊢
+    rw [g1, g2]; exact hu
+
+/-- **Retained contexts = live threads that logged.** In the situation of `C20_idle_poll_reclaims`, once no
+    registered context is left with an unreported failure counter (in particular with a blocking queue whose
+    callers never had to wait, with a queue that never dropped, or after the counters were reported), every
+    registered context belongs to a live thread, the registry is a permutation of the contexts of the live threads
+    that have logged, and their numbers agree. -/
+theorem C20_idle_poll_retains_live (s0 : BSt) (h0 : CtxFresh s0) (ops : List Op)
+    (table : List (Nat × Nat × List FOp)) :
+    let s := runOps s0 ops
+    let sp : BSt := { s with siteCnt := [] }
+    let s' := (applyOp s (.poll table)).1
+    s.backendGone = false → (populate (runInj table) sp).2 = 0 →
+    (allEmpty (idleState (runInj table) sp)).2 = true →
+    (idleState (runInj table) sp).registry.length < 2 ^ (idleState (runInj table) sp).cfg.invalidBits →
+    (∀ i ∈ s'.registry, (s'.th i).valid = false → (s'.th i).fail = 0) →
+    (∀ i ∈ s'.registry, (s'.th i).valid = true) ∧ s'.registry.Perm (liveContexts s') ∧
+    s'.registry.length = (s'.actors.filter (fun x => x.alive && x.ctx.isSome)).length := by
+  intro s sp s' hg hp he hnw hfail
+  have hmain := C20_idle_poll_reclaims s0 h0 ops table hg hp he hnw
   have hv' : ∀ i ∈ s'.registry, (s'.th i).valid = true := by
     intro i hi
-    rw [hs'eq] at hi ⊢
-    rw [f1] at hi
-    have := hval i hi
-    rw [← valid_core] at this ⊢
-    unfold Core.valid at this ⊢
-    rw [f2]; exact this
+    rcases hmain i hi with hv | hu
+    · exact hv
+    · cases hvi : (s'.th i).valid
+      · exact absurd (hfail i hi hvi) hu.2
+      · rfl
+  have hfin : CInv s' := CInv_runOps s0 h0.inv (ops ++ [.poll table]) |> fun h => by
+    have : runOps s0 (ops ++ [.poll table]) = s' := by
+      simp only [runOps, List.foldl_append, List.foldl_cons, List.foldl_nil]; rfl
+    rw [this] at h; exact h
   have hperm : (core s').registry.Perm (core s').liveCtxs :=
     CI.registry_perm hfin (fun i hi => by rw [valid_core]; exact hv' i hi)
   rw [liveContexts_core] at hperm
@@ -137,6 +169,24 @@ theorem C20_idle_poll_retains_live (s0 : BSt) (h0 : CtxFresh s0) (ops : List Op)
   have := hperm.length_eq
   simp only [liveContexts, List.length_map] at this
   exact this
+
+/-- **Reclaimed only after delivery**: in every reachable state a context that is no longer registered (it was
+    reclaimed) has an empty transit buffer and an empty queue, and every statement ever committed to its queue has
+    been popped and processed — nothing is lost with the context (`0 < hdr`: records have a positive size). -/
+theorem C20_reclaimed_delivered (s0 : BSt) (h0 : CtxFresh s0) (hh : 0 < s0.cfg.hdr) (ops : List Op) :
+    ∀ i, i < (runOps s0 ops).ths.length → i ∉ (runOps s0 ops).registry →
+      ((runOps s0 ops).th i).buf = [] ∧ ((runOps s0 ops).th i).qStmts = [] ∧
+      ((runOps s0 ops).th i).accepted = ((runOps s0 ops).th i).popped := by
+  intro i hi hr
+  have h0' : TCInv s0 := by
+    refine ⟨h0.inv, hh, ?_, ?_, ?_⟩
+    · intro j hj; rw [h0.1] at hj; cases hj
+    · intro j hj; rw [h0.1] at hj; cases hj
+    · intro x hx; rw [h0.2.2.2.2.2] at hx; cases hx
+  have h := TCInv_runOps s0 h0' ops
+  obtain ⟨h1, h2⟩ := h.2.unreg i hi hr
+  refine ⟨h1, h2, ?_⟩
+  rw [(h.2.ths i hi).cons, h1, h2]; simp
 
 /-! ### a counter that is too narrow: finding F13 in miniature -/
 
@@ -193,7 +243,9 @@ example :
     let sp : BSt := { s with siteCnt := [] }
     s.backendGone = false ∧ (populate (runInj []) sp).2 = 0 ∧ (allEmpty (idleState (runInj []) sp)).2 = true ∧
     (idleState (runInj []) sp).registry.length < 2 ^ (idleState (runInj []) sp).cfg.invalidBits ∧
-    (applyOp s (.poll [])).1.registry = [1] := by
-  refine ⟨by decide +kernel, by decide +kernel, by decide +kernel, by decide +kernel, by decide +kernel⟩
+    (applyOp s (.poll [])).1.registry = [1] ∧
+    ((applyOp s (.poll [])).1.registry.all (fun i => ((applyOp s (.poll [])).1.th i).fail == 0)) = true := by
+  refine ⟨by decide +kernel, by decide +kernel, by decide +kernel, by decide +kernel, by decide +kernel,
+    by decide +kernel⟩
 
 end Backend
